@@ -130,12 +130,28 @@ func composeCase(r *sg.Rng, kind string, n int, hazard bool, idx int) *sem.Case 
 		comp.AnyOf = branches
 	}
 	root := &sg.Schema{Types: []string{"object"}, Props: []sg.Prop{{Name: "c", S: comp}, {Name: "other", S: &sg.Schema{Types: []string{"string"}}}}, Defs: defs}
-	pos := r.IntN(3)
+	pos := r.IntN(5)
 	switch pos {
 	case 0:
 		root.Required = []string{"c"}
 	case 2: // as array items
 		root.Props[0].S = &sg.Schema{Types: []string{"array"}, Items: comp}
+	case 3: // as a definition of its own, referred to
+		root.Defs = append(root.Defs, sg.Prop{Name: "Composed", S: comp})
+		root.Props[0].S = &sg.Schema{Ref: "#/$defs/Composed", Target: comp}
+	case 4: // the document root itself
+		comp.Types = []string{"object"}
+		comp.Defs = defs
+		root = comp
+	}
+	wrap := func(o jsonx.Obj) any {
+		switch pos {
+		case 2:
+			return jsonx.Obj{{K: "c", V: []any{o}}, {K: "other", V: "x"}}
+		case 4:
+			return o
+		}
+		return jsonx.Obj{{K: "c", V: o}, {K: "other", V: "x"}}
 	}
 	c := &sem.Case{Root: root, Sig: fmt.Sprintf("%s n=%d pos=%d hazard=%v %s", kind, n, pos, hazard, comp.Sig())}
 	for mask := 0; mask < 1<<n; mask++ {
@@ -149,11 +165,7 @@ func composeCase(r *sg.Rng, kind string, n int, hazard bool, idx int) *sem.Case 
 					o = append(o, brk[(variant+idx)%len(brk)]...)
 				}
 			}
-			var doc any = jsonx.Obj{{K: "c", V: o}, {K: "other", V: "x"}}
-			if pos == 2 {
-				doc = jsonx.Obj{{K: "c", V: []any{o}}, {K: "other", V: "x"}}
-			}
-			c.Docs = append(c.Docs, docgen.Doc{V: doc, Class: "subset", Label: fmt.Sprintf("%s-subset-%b-of-%d", kind, mask, n)})
+			c.Docs = append(c.Docs, docgen.Doc{V: wrap(o), Class: "subset", Label: fmt.Sprintf("%s-subset-%b-of-%d", kind, mask, n)})
 			if mask == 1<<n-1 {
 				break
 			}
@@ -165,11 +177,7 @@ func composeCase(r *sg.Rng, kind string, n int, hazard bool, idx int) *sem.Case 
 			o = append(o, bdocs[i]...)
 		}
 		o = append(o, jsonx.KV{K: "shared", V: ov.v})
-		var doc any = jsonx.Obj{{K: "c", V: o}, {K: "other", V: "x"}}
-		if pos == 2 {
-			doc = jsonx.Obj{{K: "c", V: []any{o}}, {K: "other", V: "x"}}
-		}
-		c.Docs = append(c.Docs, docgen.Doc{V: doc, Class: "overlap", Label: ov.label})
+		c.Docs = append(c.Docs, docgen.Doc{V: wrap(o), Class: "overlap", Label: ov.label})
 	}
 	if len(overlaps) > 0 {
 		// the subset documents must carry a valid shared value where all declaring branches are in S; simplest: add it everywhere
@@ -177,7 +185,11 @@ func composeCase(r *sg.Rng, kind string, n int, hazard bool, idx int) *sem.Case 
 			if c.Docs[i].Class != "subset" {
 				continue
 			}
-			c.Docs[i].V = withShared(c.Docs[i].V, overlaps[0].v, pos == 2)
+			if pos == 4 {
+				c.Docs[i].V = c.Docs[i].V.(jsonx.Obj).Set("shared", overlaps[0].v)
+			} else {
+				c.Docs[i].V = withShared(c.Docs[i].V, overlaps[0].v, pos == 2)
+			}
 		}
 		c.Sig += " overlap"
 	}
